@@ -236,3 +236,55 @@ def test_fields(seed=0):
                 n += 1
         return out
     return scalar, vec3, vec4, ten
+
+
+def poly_spacetime(seed=0):
+    """Polynomial (degree <= 2) lapse, shift and spatial metric on [-1,1]^3:
+    every finite-difference stencil of order >= 2 differentiates them exactly,
+    so the derivative helpers must agree with their definitions to round-off
+    (the exact algebraic skeleton, no discretisation error)."""
+    k = Knobs(seed + 900)
+    A = k.A
+
+    def alpha(t, x, y, z, m):
+        return 1.0 + 0.1 * A[0] * x - 0.07 * A[1] * y * z + 0.05 * A[2] * z * z
+
+    def beta(t, x, y, z, m):
+        return [0.1 * A[3] + 0.08 * A[4] * y - 0.05 * A[5] * x * z,
+                -0.06 * A[6] * z + 0.04 * A[7] * x * x + 0.03 * t,
+                0.05 * A[8] * x * y + 0.07 * A[9] * z - 0.02 * A[10] * y * y]
+
+    def gamma(t, x, y, z, m):
+        return [1.3 + 0.10 * A[11] * y + 0.05 * A[12] * z * z,
+                0.06 * A[13] * x - 0.04 * A[14] * y * z,
+                0.05 * A[15] * z + 0.03 * A[16] * x * y,
+                1.1 + 0.08 * A[17] * x * x - 0.05 * A[18] * z,
+                0.04 * A[19] * x + 0.05 * A[20] * y * y,
+                1.5 + 0.09 * A[21] * x * y + 0.06 * A[22] * z + 0.1 * t]
+    return Spacetime('poly', alpha, beta, gamma, features=('L', 'S', 'G'))
+
+
+def poly_test_fields(seed=0):
+    """Polynomial (degree <= 2) test fields, all components distinct."""
+    k = Knobs(seed + 950)
+    A = k.A
+
+    def mono(i, x, y, z, t):
+        terms = [x, y, z, x * y, y * z, x * z, x * x, y * y, z * z]
+        a, b, c = terms[i % 9], terms[(2 * i + 3) % 9], terms[(5 * i + 1) % 9]
+        return (0.2 + 0.03 * i) * A[i % 60] * a - 0.1 * b + 0.05 * (
+            i % 4 + 1) * c + 0.1 * (i % 3) + 0.07 * t * (1 + i % 2)
+
+    def scalar(t, x, y, z, m):
+        return mono(0, x, y, z, t)
+
+    def vec3(t, x, y, z, m):
+        return [mono(1 + i, x, y, z, t) for i in range(3)]
+
+    def vec4(t, x, y, z, m):
+        return [mono(5 + i, x, y, z, t) for i in range(4)]
+
+    def ten(t, x, y, z, m):
+        return [[mono(10 + 3 * i + j, x, y, z, t) for j in range(3)]
+                for i in range(3)]
+    return scalar, vec3, vec4, ten
